@@ -60,8 +60,10 @@ def run_build(exe, cache, mode, how, n, kfile, strace_out=None, inject_when=None
     if strace_out:
         cmd = ["strace", "-f", "-y", "-o", strace_out, "-e", "trace=file,desc,process", "-e", "signal=none"] + cmd
     elif inject_when is not None:
-        cmd = ["strace", "-o", "/dev/null", "-e", "trace=" + KILL_SYSCALLS,
-               "-e", "inject=%s:signal=SIGKILL:when=%d" % (KILL_SYSCALLS, inject_when)] + cmd
+        # strace keeps one counter per syscall, so a kill point is (syscall name, k-th call of it)
+        sc, k = inject_when
+        cmd = ["strace", "-o", "/dev/null", "-e", "trace=" + sc,
+               "-e", "inject=%s:signal=SIGKILL:when=%d" % (sc, k)] + cmd
     rc, out, err = C.sh(cmd, env=env, timeout=timeout)
     line = ([l for l in out.splitlines() if l.startswith("R ")] or ["R NONE rc=%d %s" % (rc, err[-200:].replace("\n", " "))])[0]
     return rc, line
@@ -236,18 +238,52 @@ def trace_scenario(exe, base, idx, mode, how, what):
     return out
 
 
-def kill_replay(exe, base, tag, mode, how, k):
-    cache = os.path.join(base, "kill-%s-%d" % (tag, k))
-    os.makedirs(cache, exist_ok=True)
-    kfile = os.path.join(base, "kill-%s-%d.okl" % (tag, k))
+def delete_one(exe, base, mode, how, only=None):
+    """Kill-then-rebuild on the real cache: every subset of complete files may be what a killed builder left
+    behind.  After a full build, each single cache file in EVERY cache directory (kernel entry, compiler-vendor
+    probe, OpenMP flag probe: the latter two are staged as multi-file groups) is removed in turn and a fresh
+    process must still build and run the kernel correctly."""
+    cache = os.path.join(base, "del1-%s-%s" % (mode, how))
+    shutil.rmtree(cache, ignore_errors=True)
+    os.makedirs(cache)
+    kfile = os.path.join(base, "del1-%s-%s.okl" % (mode, how))
     open(kfile, "w").write(kernel_file_text(7))
-    rc1, l1 = run_build(exe, cache, mode, how, 7, kfile, inject_when=k)
+    run_build(exe, cache, mode, how, 7, kfile)
+    res = []
+    for p in listing(cache):
+        rel = os.path.relpath(p, cache)
+        if only and rel.split("/")[-1] != only:
+            continue
+        if not os.path.exists(p):
+            continue
+        os.unlink(p)
+        # the kernel's own binary goes too, otherwise the next process just loads it and stages nothing
+        for q in listing(cache):
+            if os.path.basename(q) == "binary" and os.path.exists(os.path.join(os.path.dirname(q), "build.json")):
+                os.unlink(q)
+        rc, line = run_build(exe, cache, mode, how, 7, kfile)
+        res.append(dict(mode=mode, how=how, removed=rel, line=line, ok=(line == EXPECT[7])))
+        if line != EXPECT[7]:
+            # start again from a clean, complete cache so that one failure does not mask the others
+            shutil.rmtree(cache, ignore_errors=True)
+            os.makedirs(cache)
+            run_build(exe, cache, mode, how, 7, kfile)
+    shutil.rmtree(cache, ignore_errors=True)
+    return res
+
+
+def kill_replay(exe, base, tag, mode, how, sc, k):
+    cache = os.path.join(base, "kill-%s-%s-%d" % (tag, sc, k))
+    os.makedirs(cache, exist_ok=True)
+    kfile = os.path.join(base, "kill-%s-%s-%d.okl" % (tag, sc, k))
+    open(kfile, "w").write(kernel_file_text(7))
+    rc1, l1 = run_build(exe, cache, mode, how, 7, kfile, inject_when=(sc, k))
     killed = (rc1 in (-9, 137)) or l1.startswith("R NONE")
     time.sleep(0.05)
     rc2, l2 = run_build(exe, cache, mode, how, 7, kfile)
     rc3, l3 = run_build(exe, cache, mode, how, 7, kfile)
     shutil.rmtree(cache, ignore_errors=True)
-    return dict(mode=mode, how=how, k=k, killed=killed, first=l1, rebuilt=l2, again=l3,
+    return dict(mode=mode, how=how, sc=sc, k=k, killed=killed, first=l1, rebuilt=l2, again=l3,
                 ok=(l2 == EXPECT[7] and l3 == EXPECT[7]))
 
 
@@ -278,7 +314,7 @@ def group_kill_replay(exe, base, tag, mode, how, delay):
     rc2, l2 = run_build(exe, cache, mode, how, 7, kfile)
     rc3, l3 = run_build(exe, cache, mode, how, 7, kfile)
     shutil.rmtree(cache, ignore_errors=True)
-    return dict(mode=mode, how=how, k=int(delay * 1e6), killed=killed, first=l1, rebuilt=l2, again=l3, group=True,
+    return dict(mode=mode, how=how, sc="group", k=int(delay * 1e6), killed=killed, first=l1, rebuilt=l2, again=l3, group=True,
                 ok=(l2 == EXPECT[7] and l3 == EXPECT[7]))
 
 
@@ -294,7 +330,9 @@ def build_seconds(exe, base, mode, how):
 
 
 def count_kill_points(exe, base, mode, how):
+    """number of calls of each kill syscall made by the builder process itself (children are not traced)"""
     cache = os.path.join(base, "count-%s-%s" % (mode, how))
+    shutil.rmtree(cache, ignore_errors=True)
     os.makedirs(cache)
     kfile = os.path.join(base, "count-%s-%s.okl" % (mode, how))
     open(kfile, "w").write(kernel_file_text(7))
@@ -302,10 +340,18 @@ def count_kill_points(exe, base, mode, how):
     env["C08_KERNEL_FILE"] = kfile
     st = os.path.join(base, "count.txt")
     C.sh(["strace", "-o", st, "-e", "trace=" + KILL_SYSCALLS, exe, mode, how, "7"], env=env, timeout=300)
-    n = sum(1 for _ in open(st))
+    counts = {}
+    for l in open(st, errors="replace"):
+        m = re.match(r"^(\w+)\(", l)
+        if m:
+            counts[m.group(1)] = counts.get(m.group(1), 0) + 1
     os.unlink(st)
     shutil.rmtree(cache, ignore_errors=True)
-    return n
+    return counts
+
+
+def all_kill_points(counts):
+    return [(sc, k) for sc in KILL_SYSCALLS.split(",") for k in range(1, counts.get(sc, 0) + 1)]
 
 
 def run(run, tier, seed, replay_case=None):
@@ -343,20 +389,23 @@ def run(run, tier, seed, replay_case=None):
             [("Serial", "string"), ("Serial", "file"), ("OpenMP", "string"), ("OpenMP", "file")]
         jobs = []
         for mode, how in targets:
-            total = count_kill_points(exe, base, mode, how)
+            pts = all_kill_points(count_kill_points(exe, base, mode, how))
             if tier == "quick":
-                ks = sorted(set(rng.randint(max(1, total // 3), max(1, total)) for _ in range(7)) | {total, max(1, total - 3)})
+                # the late calls are the ones made while staging cache files
+                late = [p for p in pts if p[1] > 0.4 * max(q[1] for q in pts if q[0] == p[0])]
+                ks = rng.sample(late, min(9, len(late)))
             else:
-                ks = list(range(1, total + 2))
-            jobs += [(mode, how, k) for k in ks]
+                ks = pts
+            jobs += [(mode, how, sc, k) for sc, k in ks]
         if proto_fail and tier == "quick":
             # a protocol obligation broke: search every kill point of the offending scenario for a real failure
             mode, how = proto_fail[0][0].split()[0], proto_fail[0][0].split()[1]
-            total = count_kill_points(exe, base, mode, how)
-            jobs += [(mode, how, k) for k in range(1, total + 2)]
+            pts = all_kill_points(count_kill_points(exe, base, mode, how))
+            pts.sort(key=lambda p: (p[0] == "openat", p[0] == "mkdir"))
+            jobs += [(mode, how, sc, k) for sc, k in pts]
         if replay_case:
-            m = re.match(r"kill (\w+) (\w+) (\d+)", replay_case)
-            jobs = [(m.group(1), m.group(2), int(m.group(3)))] if m else jobs
+            m = re.match(r"kill (\w+) (\w+) (\w+) (\d+)", replay_case)
+            jobs = [(m.group(1), m.group(2), m.group(3), int(m.group(4)))] if m else jobs
         gjobs = []
         if not (replay_case and replay_case.startswith("kill ")):
             for mode, how in targets:
@@ -370,16 +419,35 @@ def run(run, tier, seed, replay_case=None):
             if m:
                 jobs, gjobs = [], [(m.group(1), m.group(2), int(m.group(3)) / 1e6)]
         with ThreadPoolExecutor(max_workers=max(2, C.NPROC // 2)) as ex:
-            kills = list(ex.map(lambda j: kill_replay(exe, base, "%s-%s" % (j[0], j[1]), *j), sorted(set(jobs))))
+            kills = list(ex.map(lambda j: kill_replay(exe, base, "%s-%s" % (j[0], j[1]), *j), list(dict.fromkeys(jobs))))
             kills += list(ex.map(lambda j: group_kill_replay(exe, base, "%s-%s" % (j[0], j[1]), *j), gjobs))
         kill_fail = [k for k in kills if not k["ok"]]
+        d1 = []
+        if not replay_case or replay_case.startswith("deleteone"):
+            d1targets = [("OpenMP", "file"), ("Serial", "string")] if tier == "quick" else \
+                [("OpenMP", "file"), ("Serial", "string"), ("OpenMP", "string"), ("Serial", "file")]
+            only = None
+            if replay_case:
+                m = re.match(r"deleteone (\w+) (\w+) (\S+)", replay_case)
+                d1targets, only = [(m.group(1), m.group(2))], os.path.basename(m.group(3))
+            with ThreadPoolExecutor(max_workers=4) as ex:
+                for r in ex.map(lambda t: delete_one(exe, base, t[0], t[1], only), d1targets):
+                    d1 += r
+        for r in [r for r in d1 if not r["ok"]][:4]:
+            case = "deleteone %s %s %s" % (r["mode"], r["how"], r["removed"])
+            run.violation("a cache directory holding only complete files is not rebuilt correctly: " + case,
+                          "property C08 fails on the implementation built from /repo\ncase: %s\n"
+                          "state: a complete cache entry from which the single file %s is missing (what a builder killed between two "
+                          "renames of one staging group, or before this file's rename, leaves behind)\nfresh process: %s\nrequired: %s\n"
+                          "replay: ./check C08 --replay <this file>\n" % (case, r["removed"], r["line"], EXPECT[7]))
 
         for k in kill_fail[:5]:
-            case = "%s %s %s %d" % ("groupkill" if k.get("group") else "kill", k["mode"], k["how"], k["k"])
+            case = ("groupkill %s %s %d" % (k["mode"], k["how"], k["k"])) if k.get("group") else \
+                   ("kill %s %s %s %d" % (k["mode"], k["how"], k["sc"], k["k"]))
             run.violation("a build killed at a syscall boundary poisons the cache: " + case,
                           "property C08 fails on the implementation built from /repo\ncase: %s\n"
-                          "builder killed by SIGKILL (kill: on entering its k-th syscall among the set below; groupkill: whole "
-                          "process group k microseconds after start), k=%d, set {%s}: %s\n"
+                          "builder killed by SIGKILL (kill: on entering its k-th call of the named syscall; groupkill: whole "
+                          "process group k microseconds after start), k=%d, syscalls considered {%s}: %s\n"
                           "fresh process, same cache dir: %s\nthird process: %s\nrequired: %s\n"
                           "replay: ./check C08 --replay <this file>\n"
                           % (case, k["k"], KILL_SYSCALLS, k["first"], k["rebuilt"], k["again"], EXPECT[7]))
@@ -394,19 +462,20 @@ def run(run, tier, seed, replay_case=None):
                           % ("; ".join(pr["failures"])[:1500], detail, len(kills)), no_input=True)
 
         cov = run.coverage
-        cov["evaluations"] = len(traces) + len(kills)
+        cov["evaluations"] = len(traces) + len(kills) + len(d1)
         distinct = set(FT.coq_ops(ops) for _, ops in traces if len(ops) > 8)
-        cov["distinct_nontrivial"] = len(distinct) + len(set((k["mode"], k["how"], k["k"], k.get("group", False)) for k in kills if k["killed"]))
+        cov["distinct_nontrivial"] = len(distinct) + len(set((k["mode"], k["how"], k["sc"], k["k"]) for k in kills if k["killed"]))
         cov["rule"] = ("real builds (Serial/OpenMP x string/file kernels; fresh, fully cached and partially deleted cache entries) "
                        "traced with strace and translated; non-trivial trace = more than 8 file-state operations, distinct by "
                        "operation list; plus kill replays counted when the builder really died from the injected SIGKILL, distinct "
                        "by (mode, kind, syscall index)")
         cov["traces_validated_against_impl"] = len(traces)
         cov["real_entry_runs_compared_with_model"] = len(runs)
+        cov["single_file_removed_rebuilds"] = len(d1)
         cov["kill_replays"] = len(kills)
         cov["kill_replays_builder_died"] = sum(1 for k in kills if k["killed"])
         cov["samples"] = [dict(trace=traces[0][0], ops=FT.coq_ops(traces[0][1])[:600])] + \
-                         [dict(kill=dict(mode=k["mode"], kind=k["how"], syscall_index=k["k"], builder_output=k["first"][:60],
+                         [dict(kill=dict(mode=k["mode"], kind=k["how"], syscall=k["sc"], index=k["k"], builder_output=k["first"][:60],
                                          rebuilt=k["rebuilt"])) for k in kills[:3]]
         cov["scenario_mix"] = {w: sum(1 for s in scs if s[2].startswith(w)) for w in ("fresh", "delete")}
         run.assumptions = ["fault model: SIGKILL of the building process; not power loss", "POSIX rename atomicity"]
